@@ -57,3 +57,39 @@ func vpH_C05_T_terms() {
 	vpAuditLog(s.st, "a", true, 5, false)
 	_ = s.e.Stop()
 }
+
+// vpH_C05_T_late_create: two acquisition rounds of one follower run concurrently (two vacancy events); the
+// second Create takes 0.3, 1.3 or 2.3 s to reach the store, and the record of the term won by the
+// faster one may be purged (silently, at an explorer-chosen point) before the slower Create arrives — which
+// then succeeds and starts a second acquisition of an instance that already believes it leads. Whatever the
+// instance does with that, the token rules hold: accessors and the promotion argument equal the token in its
+// live record, every refresh repeats the token of the acquisition it follows, acquisitions use fresh tokens.
+func vpH_C05_T_late_create() {
+	H := time.Second
+	vpSetOpt("rand-fixed", 1)
+	s := vpFollowingInstance(H, nil)
+	time.Sleep(700 * time.Millisecond)
+	vpQuiesce()
+	s.kv.latOps = "create"
+	s.kv.latSeq = []time.Duration{150 * time.Millisecond, []time.Duration{300 * time.Millisecond, 1300 * time.Millisecond, 2300 * time.Millisecond}[vpChoose("slow-create", 3)]}
+	s.kv.opLeft = 24
+	s.st.write("env:other", "delete", nil, true, 0) // delete marker ...
+	s.st.write("env:other", "delete", nil, true, 0) // ... and purge marker: two vacancy events
+	s.st.noEvents = true
+	go func() {
+		vpYieldLazy("env.purge", 2*time.Second)
+		if s.st.live() && s.st.writer == "a" {
+			s.st.write("env:operator", "delete", nil, true, 0)
+			vpEvent("purged")
+		}
+	}()
+	time.Sleep(4 * time.Second)
+	vpQuiesce()
+	vpCover("C05.late-create")
+	if s.e.IsLeader() && s.st.live() && s.st.writer == "a" {
+		vpAssert("C05.token-getters", s.e.Token() == vpRecTok(s.st.val) && s.e.Status().Token == vpRecTok(s.st.val))
+		vpAssert("C05.promote-arg", s.cb.lastTok == vpRecTok(s.st.val))
+	}
+	vpAuditLog(s.st, "a", false, 0, false)
+	_ = s.e.Stop()
+}
